@@ -536,6 +536,35 @@ pub fn run(args: &Args) -> i32 {
         ctx.stats.merge(st);
         ctx.bound("zip64_extensible_data_sector", json!({"sector_lengths": sectors.iter().map(|s| s.len()).collect::<Vec<_>>(), "archives": 3, "prefix_lengths": prefixes}));
     }
+    // compressed payloads made of several members: a zstd stream of two / many frames (what chunking and multi-threaded
+    // compressors emit), between ordinary entries
+    {
+        let mut st = Stats::default();
+        let part = |n: usize, salt: u64| -> Vec<u8> {
+            let mut r = crate::util::Rng(seed ^ salt);
+            let mut v = vec![];
+            while v.len() < n {
+                v.extend_from_slice(b"multi-frame payload ");
+                v.extend(r.bytes(5));
+            }
+            v.truncate(n);
+            v
+        };
+        for (k, sizes) in [vec![25_000usize, 25_000], vec![1, 1], vec![0, 300], vec![300, 0, 7], (0..12).map(|i| 16_384 + i).collect::<Vec<_>>()].into_iter().enumerate() {
+            let parts: Vec<Vec<u8>> = sizes.iter().enumerate().map(|(i, n)| part(*n, i as u64)).collect();
+            let payload: Vec<u8> = parts.iter().flat_map(|p| crate::reference::codec::compress(93, p)).collect();
+            let content: Vec<u8> = parts.concat();
+            let e = ESpec { name: b"frames.zst".to_vec(), method: 93, content, raw_payload: Some(payload), ..red[0].clone() };
+            let mut e = e;
+            e.zip64_central = 0;
+            e.dd = Dd::None;
+            let spec = Spec { entries: vec![red[1].clone(), e, red[2].clone()], ..Default::default() };
+            let (bytes, lay) = build(&spec);
+            check_archive(&spec, &bytes, &lay, &mut st, (11 << 40) + k as u64, "multi-frame-zstd");
+        }
+        ctx.stats.merge(st);
+        ctx.bound("multi_frame_zstd", json!("zstd payloads of 2, 2 tiny, (empty + 300), (300 + empty + 7) and 12 frames between two ordinary entries"));
+    }
     // zero entries
     let mut st0 = Stats::default();
     for (ai, a) in av_full.iter().enumerate() {
